@@ -1,9 +1,9 @@
 CFG = dict(
     theorems=["C08.emission_exact", "C08.intervals_strictly_increasing", "C08.evict_safe", "C08.in_every_passed_cover",
-              "C08.ontime_cover_from_arrival", "C08.earliest_start_before_advance", "C08.pass_done"],
+              "C08.ontime_cover_from_arrival", "C08.earliest_start_before_advance", "C08.pass_done", "C08.late_extension_coincides"],
     rule="event-time op sequences as in C01 on the slide lattice, for (size,slide) in {(2,1),(3,2),(5,5),(2,3),(7,3),(10,5),(4,1)}·unit "
          "(slide|size, slide∤size, slide=size, slide>size), MAXOUTOFORDERNESS in {0, slide/2, slide, size, 2size+1}; distinct = distinct (cfg, op list)",
-    assumptions=["ALLOWEDLATENESS = 0: the sliding window's late-update path chooses its target window through Go map iteration and is not modelled",
+    assumptions=["C08 theorems are for ALLOWEDLATENESS = 0 (late updates of sliding windows are C02); the executed model covers lateness > 0 and coincides with the base model at 0 (late_extension_coincides)",
                  "pre-1970 timestamps outside the claim (hypothesis OpsOk)",
                  "processing-time sliding windows are not modelled (the property is stated for event time)",
                  "mutex mutual exclusion: every op is one critical section; the harness drives the real window without its goroutines"],
@@ -13,5 +13,5 @@ META = dict(
         "each carrying exactly the rows accepted so far whose timestamp is inside; rows at or after the current slot are never evicted (eviction safety for all size/slide relations); "
         "an accepted row is in the result of every covering interval the trigger loop has passed from the slot current at its arrival, and for on-time rows that is every covering interval (Lean theorems, unbounded). "
         "Tied to window/sliding_window.go by replaying generated op sequences on the real SlidingWindow and comparing every emission; declarative per-event oracle on the implementation's emissions.",
-   note="Trusted: Lean kernel; hand-written model tied by correspondence; Go mutex semantics; harness. Late updates (ALLOWEDLATENESS>0) of the sliding window and processing-time mode are not modelled.",
+   note="Trusted: Lean kernel; hand-written model tied by correspondence; Go mutex semantics; harness. Processing-time mode is not modelled; late updates are covered under C02.",
 )
